@@ -1082,6 +1082,7 @@ seq_t dtw_warping_paths_ndim(seq_t *wps,
     }
 
     idx_t ri, ci, min_ci, max_ci, wpsi, wpsi_start;
+    idx_t final_wpsi = 0;
 
     // Top row: ri = -1
     for (wpsi=0; wpsi<settings->psi_2b+1; wpsi++) {
@@ -1155,6 +1156,8 @@ seq_t dtw_warping_paths_ndim(seq_t *wps,
             }
             wpsi++;
         }
+        // Last column of this row (also when the row is cut short by pruning)
+        final_wpsi = ri_width + wpsi + (max_ci - ci) - 1;
         ec = ec_next;
         for (idx_t i=ri_width + wpsi; i<ri_width + p.width; i++) {
             wps[i] = INFINITY;
@@ -1205,6 +1208,8 @@ seq_t dtw_warping_paths_ndim(seq_t *wps,
             }
             wpsi++;
         }
+        // Last column of this row (also when the row is cut short by pruning)
+        final_wpsi = ri_width + wpsi + (max_ci - ci) - 1;
         ec = ec_next;
         for (idx_t i=ri_width + wpsi; i<ri_width + p.width; i++) {
             wps[i] = INFINITY;
@@ -1255,6 +1260,8 @@ seq_t dtw_warping_paths_ndim(seq_t *wps,
             }
             wpsi++;
         }
+        // Last column of this row (also when the row is cut short by pruning)
+        final_wpsi = ri_width + wpsi + (max_ci - ci) - 1;
         ec = ec_next;
         for (idx_t i=ri_width + wpsi; i<ri_width + p.width; i++) {
             wps[i] = INFINITY;
@@ -1315,6 +1322,8 @@ seq_t dtw_warping_paths_ndim(seq_t *wps,
             }
             wpsi++;
         }
+        // Last column of this row (also when the row is cut short by pruning)
+        final_wpsi = ri_width + wpsi + (l2 - ci) - 1;
         ec = ec_next;
         for (idx_t i=ri_width + wpsi; i<ri_width + p.width; i++) {
             wps[i] = INFINITY;
@@ -1334,7 +1343,6 @@ seq_t dtw_warping_paths_ndim(seq_t *wps,
 //    dtw_print_wps(wps, l1, l2, settings);
 
     seq_t rvalue = 0;
-    idx_t final_wpsi = ri_widthp + wpsi - 1;
     // Deal with Psi-relaxation
     if (return_dtw && settings->psi_1e == 0 && settings->psi_2e == 0) {
         rvalue = wps[final_wpsi];
@@ -1457,6 +1465,7 @@ seq_t dtw_warping_paths_ndim_euclidean(seq_t *wps,
     }
 
     idx_t ri, ci, min_ci, max_ci, wpsi, wpsi_start;
+    idx_t final_wpsi = 0;
 
     // Top row: ri = -1
     for (wpsi=0; wpsi<settings->psi_2b+1; wpsi++) {
@@ -1531,6 +1540,8 @@ seq_t dtw_warping_paths_ndim_euclidean(seq_t *wps,
             }
             wpsi++;
         }
+        // Last column of this row (also when the row is cut short by pruning)
+        final_wpsi = ri_width + wpsi + (max_ci - ci) - 1;
         ec = ec_next;
         for (idx_t i=ri_width + wpsi; i<ri_width + p.width; i++) {
             wps[i] = INFINITY;
@@ -1582,6 +1593,8 @@ seq_t dtw_warping_paths_ndim_euclidean(seq_t *wps,
             }
             wpsi++;
         }
+        // Last column of this row (also when the row is cut short by pruning)
+        final_wpsi = ri_width + wpsi + (max_ci - ci) - 1;
         ec = ec_next;
         for (idx_t i=ri_width + wpsi; i<ri_width + p.width; i++) {
             wps[i] = INFINITY;
@@ -1633,6 +1646,8 @@ seq_t dtw_warping_paths_ndim_euclidean(seq_t *wps,
             }
             wpsi++;
         }
+        // Last column of this row (also when the row is cut short by pruning)
+        final_wpsi = ri_width + wpsi + (max_ci - ci) - 1;
         ec = ec_next;
         for (idx_t i=ri_width + wpsi; i<ri_width + p.width; i++) {
             wps[i] = INFINITY;
@@ -1694,6 +1709,8 @@ seq_t dtw_warping_paths_ndim_euclidean(seq_t *wps,
             }
             wpsi++;
         }
+        // Last column of this row (also when the row is cut short by pruning)
+        final_wpsi = ri_width + wpsi + (l2 - ci) - 1;
         ec = ec_next;
         for (idx_t i=ri_width + wpsi; i<ri_width + p.width; i++) {
             wps[i] = INFINITY;
@@ -1713,7 +1730,6 @@ seq_t dtw_warping_paths_ndim_euclidean(seq_t *wps,
 //    dtw_print_wps(wps, l1, l2, settings);
 
     seq_t rvalue = 0;
-    idx_t final_wpsi = ri_widthp + wpsi - 1;
     // Deal with Psi-relaxation
     if (return_dtw && settings->psi_1e == 0 && settings->psi_2e == 0) {
         rvalue = wps[final_wpsi];
